@@ -8,13 +8,13 @@ TEXT = {
  "C01": ("theorems over all element trees and environments (properties/C01.v: shape invariant of the collector by induction over the tree, no CaretDepthError) + correspondence of the nesting shapes of all 15 part attributes with /repo on generated packages and the corpus + shape oracle on /repo's values", "8 C01"),
  "C02": ("refinement theorem: a paragraph of inline content yields exactly one record whose tokens are label + marker + the children's contributions in order; merge keeps the atom sequence (partial, counterexample proved); correspondence of all plain strings; reference-rendering oracle per paragraph", "8 C02"),
  "C03": ("theorems on the view functions (address-wise agreement of the three forms, concatenation of document*, text) for arbitrary nested input + correspondence of all views + the four equalities evaluated on /repo's values", "8 C03"),
- "C04": ("grid theorems for every tiling (n x m, duplicate / blank, agreement off merges) + the single-step and row refinement tying close_table_cell to the grid function + correspondence + cell-by-cell grid oracle", "8 C04"),
+ "C04": ("grid theorems for every tiling (n x m, duplicate / blank, agreement off merges) + END-TO-END refinement: walking a whole tbl/tr/tc/p table from any reachable state appends exactly the grid function's table, each position holding the records of the source cell covering it (GridWalk; side condition refuted without it) + correspondence + cell-by-cell grid oracle", "8 C04"),
  "C05": ("lineage theorem for every directly nested table walked from any state, free-paragraph theorem, element/style from the paragraph refinement + correspondence of lineage/style/element + oracle on /repo's records, predicates and get_headings", "8 C05"),
  "C06": ("merge theorems (atoms preserved, idempotent - both partial with machine-checked counterexamples for each dropped hypothesis) + correspondence at run granularity + metamorphic re-splitting oracle", "8 C06"),
- "C07": ("balance theorem for every document (nested paragraphs and link bodies included), escaping theorems + correspondence of html strings + tokenizer oracle (balance, vocabulary, escapes, projection onto plain)", "8 C07"),
+ "C07": ("balance theorem for every document (nested paragraphs and link bodies included), escaping theorems, vocabulary over the regenerated formatter table, switched-off properties produce no tag + correspondence of html strings + tokenizer oracle (balance, vocabulary, escapes, projection onto plain, per-character tag sets exactly those of the source run properties)", "8 C07"),
  "C08": ("unbounded theorems for letters, Roman 1..3999 by kernel computation, counting rule for every history, sorted positions, marker layout + correspondence of the renderers and of list documents + oracle recomputing counts and marker text", "8 C08"),
  "C09": ("path-inference theorems (relative, absolute, root, own rels; the two failing classes refuted) + correspondence of file list and all attributes on re-laid-out packages + layout-invariance oracle", "8 C09"),
- "C10": ("marker theorems via the paragraph refinement (link resolved / anchor / fallback, one run, note references, note labels) + correspondence at run granularity + oracle against relationships and get_links", "8 C10"),
+ "C10": ("marker theorems via the paragraph refinement (link resolved / anchor / fallback, one run, note references, note labels) + correspondence at run granularity and of utilities.get_links (regex re-implemented in Utilities.v) + oracle against relationships and get_links", "8 C10"),
  "C11": ("theorems on the images mapping (sound, complete, missing skipped); files on disk are observed only: oracle compares folder listing and bytes; partial", "8 C11"),
  "C12": ("prefix-monotonicity theorems for run strings at comment markers, bounds of recorded ranges, mismatch outcomes (partial: single open paragraph; counterexamples proved) + correspondence of comments + anchor oracles", "8 C12"),
  "C13": ("totality theorem: local success of every element implies success of the whole walk and rendering (table-free, marker-free trees), internal errors unreachable for every input + correspondence of outcome classes on the edge stream + no-exception oracle", "8 C13"),
@@ -22,7 +22,7 @@ TEXT = {
  "C15": ("theorems over all histories (outcomes, never reopened, close idempotent, exit = close) + correspondence + descriptor / reopen / exception-identity oracles; partial: OS descriptors observed only", "8 C15"),
  "C16": ("theorems on the written archive (copied members exact, rewritten members = cached trees, names, duplicate refuted, second save via merge idempotence) + member-by-member correspondence + round-trip oracles", "8 C16"),
  "C17": ("node-level commutation theorem with the forced side condition, frame theorems, trailing-newline refutation + correspondence of the written archive + paragraph-wise commutation oracle", "8 C17"),
- "C18": ("theorem: the whole extraction is equal under any injective renaming of namespace URIs; attribute order and other prefixes irrelevant + correspondence on six serialisation variants + invariance oracle; partial: encoding/compression live in lxml/zipfile", "8 C18"),
+ "C18": ("theorems: the whole extraction is equal under any injective renaming of namespace URIs; XML comments, PIs and inter-element whitespace are invisible to merge + walk (TriviaFacts; equation clause and prefix clause shown necessary); attribute order and other prefixes irrelevant + correspondence on six serialisation variants + invariance oracle; partial: encoding/compression live in lxml/zipfile", "8 C18"),
  "C19": ("theorems: paragraph structure independent of html setting and inline merging, html reaches the walk only through the formatter table, dup local to merged positions + correspondence of the structural projection + pairwise option oracle", "8 C19"),
  "C20": ("theorems for arbitrary nested lists and all depths (complete, sorted, indexable, iter = enum, bad depth) + exhaustive small trees + wide trees compared with the model and checked directly; html map by correspondence and oracle", "8 C20"),
 }
